@@ -271,9 +271,11 @@ class Vals:
                 v = self._def_value(d, name) if isinstance(d, ast.AST) else None
                 if isinstance(d, ast.AST) and (name, id(d)) in self.overrides:
                     for c2, e2 in self.overrides[(name, id(d))]:
-                        cc = self.conj(c, c2)
-                        if cc is not None:
-                            out.append((cc, e2))
+                        # per-item value of a loop target, as an expression of the function: resolved where the loop stands
+                        for c3, e3 in self.cases(e2, d, path=False):
+                            cc = self.conj(c, self.conj(c2, c3) or frozenset()) if self.conj(c2, c3) is not None else None
+                            if cc is not None:
+                                out.append((cc, e3))
                 elif v is not None:
                     for c2, e2 in self.cases(v, d, path=False):
                         cc = self.conj(c, c2)
@@ -680,15 +682,216 @@ def _is_cell_copy(e, must):
     return isinstance(e, ast.Name) and e.id in must
 
 
+# ---------------------------------------------------------------------- type dispatch written with functools.singledispatch
+# `G(x, a, b)` where G is a functools.singledispatch generic function with ONE registration `@G.register(T)` is
+# `if isinstance(x, T): <registered body> else: <generic body>` (dispatch is on the class of the first argument; for one concrete
+# registered class the MRO lookup is the isinstance test).  The anchor function is analysed in that form: a copy of its body in
+# which the dispatching call statement is replaced by the two bodies, parameters replaced by the arguments.
+
+def _procedure_body(impl, call, host_names, what):
+    """Statements of impl's body as they run for this call (arguments must be plain names; the body may not return a value)."""
+    import copy
+    a = impl.node.args
+    if a.vararg or a.kwarg or a.kwonlyargs or a.posonlyargs or any(isinstance(x, ast.Starred) for x in call.args) or any(k.arg is None for k in call.keywords):
+        raise Undecided(f'{what}: star / keyword-only parameters')
+    names = [x.arg for x in a.args]
+    mp = dict(zip(names, call.args))
+    for k in call.keywords:
+        if k.arg not in names or k.arg in mp:
+            raise Undecided(f'{what}: keyword {k.arg}')
+        mp[k.arg] = k.value
+    if set(mp) != set(names):
+        raise Undecided(f'{what}: arguments do not match the parameters of {impl.name}')
+    body = [x for x in impl.node.body if not (isinstance(x, ast.Expr) and isinstance(x.value, ast.Constant))]
+    for n in [y for x in body for y in ast.walk(x)]:
+        if isinstance(n, (ast.Yield, ast.YieldFrom, ast.Await, ast.Global, ast.Nonlocal, ast.FunctionDef, ast.AsyncFunctionDef, ast.ClassDef, ast.Lambda)) or (isinstance(n, ast.Return) and n.value is not None):
+            raise Undecided(f'{what}: the body of {impl.name} returns a value / defines functions')
+    if any(isinstance(n, ast.Return) for x in body for n in ast.walk(x)):
+        raise Undecided(f'{what}: the body of {impl.name} leaves early')
+    stored = {n.id for x in body for n in ast.walk(x) if isinstance(n, ast.Name) and isinstance(n.ctx, ast.Store)}
+    if stored & set(names):
+        raise Undecided(f'{what}: {impl.name} rebinds its parameter(s) {sorted(stored & set(names))}')
+    ren = {p: v.id for p, v in mp.items() if isinstance(v, ast.Name)}
+    taken = set(host_names) | set(ren.values())
+    prelude = []
+    for p_, v in mp.items():          # an argument that is not a plain name is evaluated into a local of its own first
+        if not isinstance(v, ast.Name):
+            k = 1
+            while f'{p_}__d{k}' in taken:
+                k += 1
+            ren[p_] = f'{p_}__d{k}'
+            taken.add(ren[p_])
+            prelude.append(ast.copy_location(ast.Assign(targets=[ast.Name(id=ren[p_], ctx=ast.Store())], value=copy.deepcopy(v)), call))
+    for loc in sorted(stored):
+        if loc in taken:
+            k = 1
+            while f'{loc}__d{k}' in taken:
+                k += 1
+            ren[loc] = f'{loc}__d{k}'
+            taken.add(ren[loc])
+    body = copy.deepcopy(body)
+    for x in body:
+        for n in ast.walk(x):
+            if isinstance(n, ast.Name) and n.id in ren:
+                n.id = ren[n.id]
+    return prelude + body
+
+
+def anchor(m, qualname):
+    """The anchor function as the rules analyse it: singledispatch calls made as statements are replaced by the isinstance dispatch
+    they perform (see above).  Functions without such calls are returned as they are."""
+    cache = m.__dict__.setdefault('_c05_anchor', {})
+    if qualname in cache:
+        return cache[qualname]
+    from ..model import FuncInfo
+    import copy
+    fi = m.func(qualname)
+    sites = []
+    for st in stmts_in(fi.node.body):
+        if isinstance(st, ast.Expr) and isinstance(st.value, ast.Call):
+            g = m.functions.get(m.resolve_call(fi, st.value) or '')
+            if g is not None and any(isinstance(d, (ast.Name, ast.Attribute)) and m.resolve(g.module, d) == 'functools.singledispatch' for d in g.decorators):
+                sites.append((st, g))
+    if not sites:
+        cache[qualname] = fi
+        return fi
+    node = copy.deepcopy(fi.node)
+    pairs = [(a, b) for a, b in zip(stmts_in(fi.node.body), stmts_in(node.body))]
+    host_names = {n.id for n in ast.walk(fi.node) if isinstance(n, ast.Name)} | {a.arg for a in ast.walk(fi.node) if isinstance(a, ast.arg)}
+    for st, g in sites:
+        what = f'{fi.name}: call of the singledispatch function {g.name}()'
+        regs = []
+        for f2 in m.all_functions():
+            for d in f2.decorators:
+                base = d.func if isinstance(d, ast.Call) else d
+                if isinstance(base, ast.Attribute) and base.attr == 'register' and m.resolve(f2.module, base.value) == g.qualname:
+                    t = d.args[0] if isinstance(d, ast.Call) and len(d.args) == 1 and not d.keywords else (f2.node.args.args[0].annotation if not isinstance(d, ast.Call) and f2.node.args.args else None)
+                    regs.append((f2, t))
+        uses = sum(1 for mod in m.modules.values() if mod.kind == 'py' for n in ast.walk(mod.tree) if isinstance(n, ast.Attribute) and n.attr in ('register', 'dispatch', 'registry')
+                   and isinstance(n.value, (ast.Name, ast.Attribute)) and m.resolve(mod, n.value) == g.qualname)
+        if len(regs) != 1 or uses != 1 or regs[0][1] is None or regs[0][0].module is not g.module or g.module is not fi.module or len(g.decorators) != 1 or len(regs[0][0].decorators) != 1:
+            raise Undecided(f'{what}: expected exactly one `@{g.name}.register(<class>)` implementation in the same module ({len(regs)} registrations, {uses} uses of register/dispatch)')
+        impl, tp = regs[0]
+        call = st.value
+        first = get_arg(call, 0, g.params()[0] if g.params() else None)
+        if not isinstance(first, ast.Name):
+            raise Undecided(f'{what}: the dispatch argument is not a plain name')
+        body_t = _procedure_body(impl, call, host_names, what)
+        body_d = _procedure_body(g, call, host_names, what)
+        test = ast.Call(func=ast.Name(id='isinstance', ctx=ast.Load()), args=[ast.Name(id=first.id, ctx=ast.Load()), copy.deepcopy(tp)], keywords=[])
+        new = ast.copy_location(ast.If(test=test, body=body_t or [ast.Pass()], orelse=body_d or [ast.Pass()]), st)
+        twin = next(b for a, b in pairs if a is st)
+        for parent in ast.walk(node):
+            for fld in ('body', 'orelse', 'finalbody'):
+                blk = getattr(parent, fld, None)
+                if isinstance(blk, list) and any(x is twin for x in blk):
+                    blk[blk.index(twin)] = new
+        ast.fix_missing_locations(node)
+    out = FuncInfo(fi.qualname, node, fi.module, fi.cls)
+    cache[qualname] = out
+    return out
+
+
+GATE = f'{MET}._cast_sigs_array'
+WRAPPER = f'{MET}.jaccarddist'      # the public two-signature function: kernel value of its two gated operands (verified when relied upon)
+
+
+def _is_cast(m, fi, e):
+    """e is a call of the dtype gate _cast_sigs_array (wherever it lives now / under whatever name it is imported) on one operand."""
+    if isinstance(e, ast.Call) and term(e.func, '__gate__', 'gate') and len(e.args) == 1:
+        return True
+    return isinstance(e, ast.Call) and m.resolve_call(fi, e) == GATE and len(e.args) == 1 and not e.keywords and not isinstance(e.args[0], ast.Starred)
+
+
+def elementwise_gate(m, fi, e):
+    """The sequence X when e is `the gate applied to every element of X, in order`: map(gate, X), [gate(x) for x in X],
+    (gate(x) for x in X), possibly inside list() / tuple() / iter(); None otherwise."""
+    if isinstance(e, ast.Call) and isinstance(e.func, ast.Name) and e.func.id in ('list', 'tuple', 'iter') and len(e.args) == 1 and not e.keywords:
+        return elementwise_gate(m, fi, e.args[0])
+    if isinstance(e, ast.Call) and isinstance(e.func, ast.Name) and e.func.id == 'map' and len(e.args) == 2 and not e.keywords and isinstance(e.args[0], (ast.Name, ast.Attribute)) \
+            and m.resolve(fi.module, e.args[0]) == GATE:
+        return e.args[1]
+    if isinstance(e, (ast.ListComp, ast.GeneratorExp)) and len(e.generators) == 1 and not e.generators[0].ifs and not e.generators[0].is_async and isinstance(e.generators[0].target, ast.Name) \
+            and _is_cast(m, fi, e.elt) and isinstance(e.elt.args[0], ast.Name) and e.elt.args[0].id == e.generators[0].target.id:
+        return e.generators[0].iter
+    return None
+
+
+def positional(m, fi, call):
+    """The positional operands of a call with `*` spreads resolved: f(*(a, b)) and f(*h(a, b)) where h(*xs) returns the gate applied to
+    every x in order (then the operands are gate(a), gate(b)); None when a spread cannot be resolved."""
+    out = []
+    for a in call.args:
+        if not isinstance(a, ast.Starred):
+            out.append(a)
+            continue
+        v = a.value
+        if isinstance(v, (ast.Tuple, ast.List)) and not any(isinstance(x, ast.Starred) for x in v.elts):
+            out.extend(v.elts)
+            continue
+        hf = m.functions.get(m.resolve_call(fi, v) or '') if isinstance(v, ast.Call) and not v.keywords and not any(isinstance(x, ast.Starred) for x in v.args) else None
+        if hf is not None and hf.node.args.vararg is not None and not hf.node.args.args and not hf.node.args.kwonlyargs and not hf.node.args.posonlyargs and not hf.decorators:
+            body = [st for st in hf.node.body if not (isinstance(st, ast.Expr) and isinstance(st.value, ast.Constant))]
+            src = elementwise_gate(m, hf, body[0].value) if len(body) == 1 and isinstance(body[0], ast.Return) and body[0].value is not None else None
+            if isinstance(src, ast.Name) and src.id == hf.node.args.vararg.arg:
+                out.extend(ast.Call(func=_tag('__gate__', 'gate'), args=[x], keywords=[]) for x in v.args)
+                continue
+        return None
+    return out
+
+
+def kernel_value(m, fi, e):
+    """(operand 1, operand 2, gated by the callee?) when e is the distance of two signatures computed by THE kernel: a call of the native
+    two-signature kernel, or of the public wrapper around it (which gates both operands itself); None otherwise."""
+    if not isinstance(e, ast.Call) or e.keywords:
+        return None
+    q = m.resolve_call(fi, e)
+    if q not in KERNELS and q != WRAPPER:
+        return None
+    ops = positional(m, fi, e)
+    if ops is None or len(ops) != 2:
+        return None
+    return ops[0], ops[1], q == WRAPPER
+
+
 def _is_kernel(m, fi, e):
-    return isinstance(e, ast.Call) and m.resolve_call(fi, e) in KERNELS
+    return kernel_value(m, fi, e) is not None
+
+
+def wrapper_ok(m):
+    """The public two-signature function returns, on every path, the native kernel's value of (gate(first parameter), gate(second
+    parameter)) - so a cell delegated to it is a kernel value.  -> (ok, description, site)"""
+    if getattr(m, '_c05_wrapper', None) is None:
+        fw = m.func(WRAPPER)
+        VW = Vals(fw)
+        ps = fw.params()
+        rets = [x for x in VW.stmts if isinstance(x, ast.Return)]
+        ok, found = bool(rets) and len(ps) == 2, []
+
+        def gated_param(e, name, at):
+            if _is_cast(m, fw, e) and term(e.args[0], name, PARAM):
+                return not assigns_to(fw.node, name)
+            bs = assigns_to(fw.node, name)      # or: the parameter itself, rebound once at the top of the function to its gated self
+            return term(e, name, PARAM) and len(bs) == 1 and bs[0] in fw.node.body and isinstance(bs[0], ast.Assign) and _is_cast(m, fw, bs[0].value) and isinstance(bs[0].value.args[0], ast.Name) \
+                and bs[0].value.args[0].id == name and VW.before(bs[0], at)
+        for r in rets:
+            cs = VW.cases(r.value, r) if r.value is not None else []
+            found += VW.show(cs)
+            ok = ok and bool(cs)
+            for _, e in cs:
+                kv = kernel_value(m, fw, e) if isinstance(e, ast.Call) and m.resolve_call(fw, e) in KERNELS else None
+                ok = ok and kv is not None and gated_param(kv[0], ps[0], r) and gated_param(kv[1], ps[1], r)
+        m._c05_wrapper = (ok, found, fw.site(rets[0] if rets else None))
+    return m._c05_wrapper
 
 
 def check_stores(ctx):
     rep, m = ctx.rep, ctx.model
     kinds = {}
+    wrapper_noted = []
+    deferred = []     # constructs outside the vocabulary: reported after every obligation of the three functions is evaluated
     for fname in ('jaccarddist_array', 'jaccarddist_matrix', 'jaccarddist_pairwise'):
-        fi = m.func(f'{MET}.{fname}')
+        fi = anchor(m, f'{MET}.{fname}')
         rep.functions.add(fi.qualname)
         V = Vals(fi)
         al, must = out_aliases(fi)
@@ -707,6 +910,11 @@ def check_stores(ctx):
                         if cs and all(_is_kernel(m, fi, e) for _, e in cs):
                             kinds.setdefault('kernel', []).append(s)
                             rep.add('B1', fi.site(s), 'the cell is the unmodified value of the two-signature kernel', True, found=u(v), stmt=s)
+                            if any(kernel_value(m, fi, e)[2] for _, e in cs) and not wrapper_noted:
+                                wrapper_noted.append(1)
+                                okw, foundw, sitew = wrapper_ok(m)
+                                rep.add('B1', sitew, 'the two-signature function a cell is delegated to returns the unmodified kernel value of its two gated operands', okw, expected='return <kernel>(gate(a), gate(b))', found=foundw,
+                                        stmt='two-signature wrapper')
                         elif cs and all(_is_cell_copy(e, must) for _, e in cs):
                             kinds.setdefault('mirror', []).append(s)
                             rep.add('B1', fi.site(s), 'the cell is a copy of another cell of the same buffer', True, found=u(v), stmt=s)
@@ -736,6 +944,12 @@ def check_stores(ctx):
             elif isinstance(c.func, ast.Attribute) and _root(c.func) in al:
                 rep.add('B1', fi.site(c), 'no in-place method touches the output buffer', False, expected='none', found=u(c), stmt=c)
             else:
+                from ..inline import known_symbols
+                if f in m.functions and f not in known_symbols() and m.moved.get(f, f) not in known_symbols():
+                    # a helper of the package that was not there before and could not be expanded in place: what it does with the buffer is
+                    # decided by its body, which this rule does not interpret
+                    deferred.append(f'{fi.name}: the output buffer is handed to the new helper {f}() (not expanded in place); its stores are not evaluated')
+                    continue
                 rep.add('B1', fi.site(c), 'the output buffer is not handed to anything but the kernels', False, expected='jaccarddist_array / _jaccarddist_parallel / fill_diagonal', found=u(c)[:70], stmt=c)
         rets = [s for s in stmts_in(fi.node.body) if isinstance(s, ast.Return)]
         rep.add('B1', fi.site(rets[-1] if rets else None), 'the buffer is returned as filled', bool(rets) and all(u(r.value) == 'out' for r in rets), expected='return out', found=[u(r.value) for r in rets], stmt=f'{fname} return')
@@ -750,6 +964,8 @@ def check_stores(ctx):
         okb, why = buffer_validated(V, writes, allocs[0] if len(allocs) == 1 else None)
         rep.add('B1', fi.site(rs[0] if rs else None), 'a caller-supplied buffer must have the exact shape and float32 dtype', okb, expected='every path that reaches a store with the caller\'s buffer implies out.shape == <allocation shape> and '
                 'out.dtype == SCORE_DTYPE (raise ValueError on mismatch)', found=why or [u(r)[:50] for r in rs], stmt=f'{fname} buffer validation')
+    if deferred:
+        raise Undecided(deferred[0])
     rep.floor('B1', 'store kinds seen', len(kinds), 4)
     rep.info['store_kinds'] = {k: len(v) for k, v in kinds.items()}
 
@@ -828,7 +1044,7 @@ def _single(V, e, at, what):
     return cs
 
 
-def _iteration(V, loop, seq, what):
+def _iteration(V, loop, seq, what, m=None):
     """How a loop walks over the sequence parameter `seq`: ('enumerate', index name, element name) for
     `for i, x in enumerate(seq)`, ('range', index name, None) for `for i in range(len(seq))`; anything else is outside the
     vocabulary (Undecided).  The pairing index <-> element is then by construction of the loop header."""
@@ -838,7 +1054,9 @@ def _iteration(V, loop, seq, what):
         if isinstance(it, ast.Call) and isinstance(it.func, ast.Name) and not it.keywords:
             if it.func.id == 'enumerate' and len(it.args) in (1, 2) and (len(it.args) == 1 or is_const(it.args[1], 0)) and isinstance(loop.target, ast.Tuple) and len(loop.target.elts) == 2 \
                     and all(isinstance(e, ast.Name) for e in loop.target.elts):
-                forms.add(('enumerate', loop.target.elts[0].id, loop.target.elts[1].id, u(it.args[0]) if term(it.args[0], None, PARAM) else f'<{u(it.args[0])}>'))
+                src = elementwise_gate(m, V.fi, it.args[0]) if m is not None else None      # enumerate(map(gate, S)): element k is the gated k-th item of S
+                a = src if src is not None else it.args[0]
+                forms.add(('enumerate' if src is None else 'enumerate_gated', loop.target.elts[0].id, loop.target.elts[1].id, u(a) if term(a, None, PARAM) else f'<{u(a)}>'))
                 continue
             if it.func.id == 'range' and len(it.args) == 1 and isinstance(loop.target, ast.Name) and isinstance(it.args[0], ast.Call) and isinstance(it.args[0].func, ast.Name) and it.args[0].func.id == 'len' \
                     and len(it.args[0].args) == 1:
@@ -854,14 +1072,14 @@ def _iteration(V, loop, seq, what):
 
 def _is_element(e, kind, i, x, seq, loop):
     """e is the element of `seq` that belongs to index i of this loop."""
-    if kind == 'enumerate':
+    if kind in ('enumerate', 'enumerate_gated'):
         return term(e, x, loop)
     return isinstance(e, ast.Subscript) and term(e.value, seq, PARAM) and term(e.slice, i, loop)
 
 
 def check_array(ctx):
     rep, m = ctx.rep, ctx.model
-    fi = m.func(f'{MET}.jaccarddist_array')
+    fi = anchor(m, f'{MET}.jaccarddist_array')
     V = Vals(fi)
     qp, rp = fi.params()[:2]
     par = [c for c in calls_in(fi.node) if m.resolve_call(fi, c) == f'{PYX}._jaccarddist_parallel']
@@ -899,24 +1117,31 @@ def check_array(ctx):
     loops = V.loops_around(s)
     rep.require(bool(loops) and isinstance(loops[-1], ast.For), 'jaccarddist_array: per-item kernel store is not inside a for loop')
     loop = loops[-1]
-    kind, i, x, over = _iteration(V, loop, rp, 'slow path')
+    kind, i, x, over = _iteration(V, loop, rp, 'slow path', m)
     tgt = s.targets[0]
     tb = _single(V, tgt.value, s, 'slow path store')
     ti = _single(V, tgt.slice, s, 'slow path store')
     ok_t = over == rp and all(term(e, 'out', PARAM) for _, e in tb) and all(term(e, i, loop) for _, e in ti)
     ok_v = True
     for _, e in vcs:
-        a = [get_arg(e, 0, None), get_arg(e, 1, None)] if _is_kernel(m, fi, e) and len(e.args) == 2 and not e.keywords else [None, None]
-        r = a[1]
-        # the reference operand is the cast of THIS iteration's element (cast separately or inside the call: same value)
-        ok_r = isinstance(r, ast.Call) and m.resolve_call(fi, r) == f'{MET}._cast_sigs_array' and len(r.args) == 1 and not r.keywords and _is_element(r.args[0], kind, i, x, rp, loop)
-        ok_v = ok_v and a[0] is not None and term(a[0], qp, PARAM) and ok_r
+        kv = kernel_value(m, fi, e)
+        if kv is None:
+            ok_v = False
+            continue
+        q0, r, wrapped = kv
+        q0 = q0.args[0] if _is_cast(m, fi, q0) else q0
+        # the reference operand is THIS iteration's element, and it has passed the dtype gate: cast separately, inside the call, by the
+        # public two-signature function the cell is delegated to, or already by the loop header (enumerate(map(gate, refs)))
+        gated = wrapped or kind == 'enumerate_gated'
+        if _is_cast(m, fi, r):
+            r, gated = r.args[0], True
+        ok_v = ok_v and term(q0, qp, PARAM) and gated and _is_element(r, kind, i, x, rp, loop)
     rep.add('B4', fi.site(s), 'slow path: cell i is the kernel value of (query, i-th reference), i and reference bound by one enumerate', ok_t and ok_v, expected=f'for i, ref in enumerate({rp}): out[i] = jaccarddist({qp}, cast(ref))',
             found=(f'for {u(loop.target)} in {u(loop.iter)}', f'{u(tgt)} = ' + ' | '.join(V.show(vcs))), stmt='slow path pairing')
     at = V.path(s)
     rep.add('B4', fi.site(s), 'the slow path handles every other container', ('false', f'isinstance({rp}, SignatureArray)') in at, expected='else branch', found=sorted(at), stmt='slow path guard')
     qc = [x for x in fi.node.body if isinstance(x, ast.Assign) and u(x.targets[0]) == qp]
-    rep.add('B3', fi.site(qc[0] if qc else None), 'the query array itself (cast, not copied or reordered) is what both paths see', len(qc) == 1 and u(qc[0].value) == f'_cast_sigs_array({qp})', expected=f'{qp} = _cast_sigs_array({qp})',
+    rep.add('B3', fi.site(qc[0] if qc else None), 'the query array itself (cast, not copied or reordered) is what both paths see', len(qc) == 1 and _is_cast(m, fi, qc[0].value) and isinstance(qc[0].value.args[0], ast.Name) and qc[0].value.args[0].id == qp, expected=f'{qp} = _cast_sigs_array({qp})',
             found=[u(x) for x in qc], stmt='query operand')
     every_iteration(V, s, loop, 'the per-item kernel store')
     extra = [x for x in assigns_to(fi.node, qp) if x not in qc] + assigns_to(fi.node, rp)
@@ -924,10 +1149,11 @@ def check_array(ctx):
 
 
 def generator_items(m, fi, V, loop):
-    """`for t0, t1, .. in G(args)` where G is a generator of the package every path of which is ONE loop `for v in <parameter p>`
-    that yields exactly once per item: the loop is then a loop over the argument bound to p, and each target is a function of the
-    item (one case per path of G, parameters replaced by the arguments).  Returns (name of the target that IS the item,
-    the argument iterated over) and registers the per-item values of the other targets; None if the iterator is not such a call."""
+    """`for t0, t1, .. in G(args)` where G is a generator of the package every path of which is ONE loop `for v in <iterable>` whose body
+    yields exactly once on each of its paths (plain assignments and if/else apart): the loop is then a loop over that iterable (the
+    generator's parameters replaced by the arguments), and each target is a function of the item v - one case per path of G.
+    Returns (name of the target that IS the item, the iterable as an expression of the caller) and registers the per-item values of the
+    other targets (resolved where the loop stands); None if the iterator is not such a call."""
     it = loop.iter
     q = m.resolve_call(fi, it) if isinstance(it, ast.Call) else None
     g = m.functions.get(q) if q else None
@@ -935,8 +1161,8 @@ def generator_items(m, fi, V, loop):
         return None
     what = f'{fi.name}: loop over generator {g.name}()'
     a = g.node.args
-    if a.vararg or a.kwarg or any(isinstance(x, ast.Starred) for x in it.args) or any(k.arg is None for k in it.keywords):
-        raise Undecided(f'{what}: star arguments')
+    if a.vararg or a.kwarg or any(isinstance(x, ast.Starred) for x in it.args) or any(k.arg is None for k in it.keywords) or g.decorators:
+        raise Undecided(f'{what}: star arguments / decorated generator')
     if not (isinstance(loop.target, ast.Tuple) and all(isinstance(e, ast.Name) for e in loop.target.elts)):
         raise Undecided(f'{what}: loop target `{u(loop.target)}` is not a tuple of names')
     args = {}
@@ -946,66 +1172,78 @@ def generator_items(m, fi, V, loop):
             raise Undecided(f'{what}: argument for parameter {p} not given explicitly')
         args[p] = e
     VG = Vals(g)
-    paths = []
+    loops, ystmts = [], []
+    shape = f'{what}: body is not (assignments, then one loop - or an if/else of such blocks -) yielding exactly once per item'
 
-    def walk(block, guards):
-        body = [x for x in block if not (isinstance(x, ast.Expr) and isinstance(x.value, ast.Constant))]
-        if not body or any(not isinstance(x, (ast.Assign, ast.AnnAssign)) or any(isinstance(n, (ast.Yield, ast.YieldFrom)) for n in ast.walk(x)) for x in body[:-1]):
-            raise Undecided(f'{what}: body is not (assignments, then one loop or an if/else of such blocks)')
-        last = body[-1]
-        if isinstance(last, ast.For) and not last.orelse:
-            paths.append((guards, last))
-        elif isinstance(last, ast.If) and last.orelse:
-            walk(last.body, guards + [(last.test, True, last)])
-            walk(last.orelse, guards + [(last.test, False, last)])
+    def plain(x):
+        return isinstance(x, (ast.Assign, ast.AnnAssign)) and not any(isinstance(n, (ast.Yield, ast.YieldFrom, ast.NamedExpr)) for n in ast.walk(x))
+
+    def ywalk(block):
+        """every path through the block ends in its one yield"""
+        if not block or not all(plain(x) for x in block[:-1]):
+            raise Undecided(shape)
+        last = block[-1]
+        if isinstance(last, ast.Expr) and isinstance(last.value, ast.Yield) and last.value.value is not None:
+            ystmts.append((last, loops[-1]))
+        elif isinstance(last, ast.If) and last.orelse and not any(isinstance(n, (ast.Yield, ast.YieldFrom, ast.NamedExpr)) for n in ast.walk(last.test)):
+            ywalk(last.body)
+            ywalk(last.orelse)
         else:
-            raise Undecided(f'{what}: body is not (assignments, then one loop or an if/else of such blocks)')
-    walk(g.node.body, [])
+            raise Undecided(shape)
+
+    def walk(block):
+        body = [x for x in block if not (isinstance(x, ast.Expr) and isinstance(x.value, ast.Constant))]
+        if not body or not all(plain(x) for x in body[:-1]):
+            raise Undecided(shape)
+        last = body[-1]
+        if isinstance(last, ast.For) and not last.orelse and isinstance(last.target, ast.Name):
+            loops.append(last)
+            ywalk(last.body)
+        elif isinstance(last, ast.If) and last.orelse:
+            walk(last.body)
+            walk(last.orelse)
+        else:
+            raise Undecided(shape)
+    walk(g.node.body)
+    if len(ystmts) != sum(1 for n in ast.walk(g.node) if isinstance(n, (ast.Yield, ast.YieldFrom))):
+        raise Undecided(shape)
     n = len(loop.target.elts)
-    item_name = None
-    per_target = [[] for _ in range(n)]
-    iter_params = set()
-    resolved_args = {}
+    item = _tag('<item>', loop)
 
-    def arg_of(p):
-        if p not in resolved_args:
-            cs = V.cases(args[p], loop)
-            if len(cs) != 1:
-                raise Undecided(f'{what}: argument `{u(args[p])}` has {len(cs)} possible values')
-            resolved_args[p] = cs[0][1]
-        return resolved_args[p]
-    for guards, lp in paths:
+    def subst(e, lp):
+        """an expression of G (resolved there) as an expression of the caller: parameters -> the arguments as written, loop variable -> item"""
+        import copy
+        return _clone(e, lambda x: item if term(x, lp.target.id, lp) else (copy.deepcopy(args[x.id]) if term(x, None, PARAM) and x.id in args else None))
+    iters = {}
+    for lp in loops:
         ics = VG.cases(lp.iter, lp, path=False)
-        ys = [x for x in ast.walk(lp) if isinstance(x, (ast.Yield, ast.YieldFrom))]
-        body = lp.body
-        ok = isinstance(lp.target, ast.Name) and len(ics) == 1 and not ics[0][0] and term(ics[0][1], None, PARAM) and len(ys) == 1 and isinstance(body[-1], ast.Expr) and body[-1].value is ys[0] \
-            and isinstance(ys[0], ast.Yield) and all(isinstance(x, (ast.Assign, ast.AnnAssign)) for x in body[:-1])
-        if not ok:
-            raise Undecided(f'{what}: `for {u(lp.target)} in {u(lp.iter)[:40]}` is not a loop over a parameter yielding exactly once per item')
-        iter_params.add(ics[0][1].id)
-        item = _tag('<item>', loop)
-
-        def subst(e, lp=lp, item=item):
-            return _clone(e, lambda x: item if term(x, lp.target.id, lp) else (arg_of(x.id) if term(x, None, PARAM) and x.id in args else None))
+        if len(ics) != 1 or ics[0][0] or any(term(x, lp.target.id) for x in ast.walk(ics[0][1])):
+            raise Undecided(f'{what}: the iterable `{u(lp.iter)[:50]}` depends on the path')
+        e = subst(ics[0][1], lp)
+        iters[u(e)] = e
+    if len(iters) != 1:
+        raise Undecided(f'{what}: the paths iterate over different things {sorted(iters)}')
+    per_target = [[] for _ in range(n)]
+    for ys, lp in ystmts:
         cond = frozenset()
-        for t, pol, owner in guards:
-            tcs = VG.cases(t, owner, path=False)
+        for t, pol in VG.gm[ys]:
+            tcs = VG.cases(t, VG.test_owner.get(id(t), ys), path=False)
             if len(tcs) != 1 or tcs[0][0]:
                 raise Undecided(f'{what}: condition `{u(t)}` depends on the path')
-            a_ = atoms(subst(tcs[0][1]), pol)
-            cond = V.conj(cond, frozenset(a_ if a_ is not None else {('true' if pol else 'false', u(subst(tcs[0][1])))})) if cond is not None else None
+            t2 = subst(tcs[0][1], lp)
+            if any(term(x, '<item>', loop) for x in ast.walk(t2)):
+                raise Undecided(f'{what}: condition `{u(t)}` depends on the item')
+            cond = V.conj(cond, V.cond(t2, pol, loop)) if cond is not None else None
         if cond is None:
             continue
-        for c2, y in VG.cases(ys[0].value, body[-1], path=False) if ys[0].value is not None else []:
+        for c2, y in VG.cases(ys.value.value, ys, path=False):
             if not (isinstance(y, ast.Tuple) and len(y.elts) == n):
                 raise Undecided(f'{what}: yields `{u(y)}`, loop unpacks {n} names')
-            cc = V.conj(cond, frozenset(atom for atom in c2))
-            if cc is None:
-                continue
+            if c2 - VG.path(ys):
+                raise Undecided(f'{what}: the yielded value `{u(ys.value.value)[:50]}` depends on conditions inside an expression')
             for k in range(n):
-                per_target[k].append((cc, subst(y.elts[k])))
-    if len(iter_params) != 1 or iter_params & {p for p in args if p in resolved_args}:
-        raise Undecided(f'{what}: the paths iterate over different parameters {sorted(iter_params)}')
+                per_target[k].append((cond, subst(y.elts[k], lp)))
+    item_name = None
     for k, t in enumerate(loop.target.elts):
         if per_target[k] and all(term(e, '<item>', loop) for _, e in per_target[k]) and item_name is None:
             item_name = t.id
@@ -1015,7 +1253,8 @@ def generator_items(m, fi, V, loop):
     for k, t in enumerate(loop.target.elts):
         if t.id != item_name:
             V.overrides[(t.id, id(loop))] = [(c, _clone(e, lambda x: S if term(x, '<item>', loop) else None)) for c, e in per_target[k]]
-    return item_name, args[next(iter(iter_params))]
+    V._memo.clear()
+    return item_name, next(iter(iters.values()))
 
 
 def every_iteration(V, stmt, loop, what, allowed=()):
@@ -1076,7 +1315,7 @@ def _count(e, cond, seq, sel, what):
 
 def check_matrix(ctx):
     rep, m = ctx.rep, ctx.model
-    fi = m.func(f'{MET}.jaccarddist_matrix')
+    fi = anchor(m, f'{MET}.jaccarddist_matrix')
     V = Vals(fi)
     gm = guard_map(fi.node)
     qp, rp, rip = fi.params()[:3]
@@ -1228,6 +1467,9 @@ def _qp_shape(e, is_i, is_n, is_np):
     if is_np(e):
         d, p = _qp_shape(e.args[0], is_i, is_n, is_np)
         return 2 * d, 2 * p
+    if _is_psum(e):      # sum over j < i of f(j): one degree more, same period
+        d, p = _qp_shape(e.args[0], is_i, is_n, is_np)
+        return d + 1, p
     raise _NotInt(u(e))
 
 
@@ -1244,6 +1486,8 @@ def _qp_eval(e, i, n, is_i, is_n, is_np):
     if isinstance(e, ast.BinOp):
         a, b = _qp_eval(e.left, i, n, is_i, is_n, is_np), _qp_eval(e.right, i, n, is_i, is_n, is_np)
         return a + b if isinstance(e.op, ast.Add) else a - b if isinstance(e.op, ast.Sub) else a * b if isinstance(e.op, ast.Mult) else a // b
+    if _is_psum(e):
+        return sum(_qp_eval(e.args[0], j, n, is_i, is_n, is_np) for j in range(i))
     x = _qp_eval(e.args[0], i, n, is_i, is_n, is_np)
     return x * (x - 1) // 2
 
@@ -1266,6 +1510,128 @@ def condensed_block_ok(lo, hi, is_i, is_n, is_np):
     return True
 
 
+# ---------------------------------------------------------------------- loop headers as indexed families
+# `for <targets> in <iterable>`: the k-th iteration (k = 0, 1, ..) binds the targets to the k-th element of the iterable.  For
+# iterables built from range / enumerate / zip / itertools.accumulate / a sequence parameter the k-th element and the number of
+# elements are expressions of k, so every target becomes a function of the row index - e.g. offsets = accumulate(lengths, initial=0)
+# gives offset_k = sum of the first k lengths, which is what a running counter computes.
+
+def _bin(l, op, r):
+    return ast.BinOp(left=l, op=op, right=r)
+
+
+def _is_psum(e):
+    return isinstance(e, ast.Call) and term(e.func, '__psum__', 'builtin') and len(e.args) == 1
+
+
+def family(m, fi, e, K):
+    """(k-th element, number of elements) of the resolved iterable expression e, as expressions over the index terminal K; None when e
+    is outside the vocabulary."""
+    import copy
+    if term(e, None, PARAM):
+        return ast.Subscript(value=e, slice=K, ctx=ast.Load()), ast.Call(func=_tag('len', None), args=[e], keywords=[])
+    if not isinstance(e, ast.Call) or any(isinstance(x, ast.Starred) for x in e.args):
+        return None
+    f = e.func
+    name = f.id if isinstance(f, ast.Name) and getattr(f, 'bind', None) is None else None
+    if name == 'range' and not e.keywords and 1 <= len(e.args) <= 3:
+        a = list(e.args)
+        lo, hi = (ast.Constant(value=0), a[0]) if len(a) == 1 else (a[0], a[1])
+        st = a[2] if len(a) == 3 else ast.Constant(value=1)
+        if is_const(st, 1):
+            return (K if is_const(lo, 0) else _bin(lo, ast.Add(), K)), (hi if is_const(lo, 0) else _bin(hi, ast.Sub(), lo))
+        if isinstance(st, ast.UnaryOp) and isinstance(st.op, ast.USub) and is_const(st.operand, 1) or is_const(st, -1):
+            return _bin(lo, ast.Sub(), K), _bin(lo, ast.Sub(), hi)
+        return None
+    if name == 'enumerate' and len(e.args) == 1 and (not e.keywords or (len(e.keywords) == 1 and e.keywords[0].arg == 'start' and is_const(e.keywords[0].value, 0))):
+        sub = family(m, fi, e.args[0], K)
+        return None if sub is None else (ast.Tuple(elts=[K, sub[0]], ctx=ast.Load()), sub[1])
+    if name == 'zip' and e.args and not e.keywords:
+        subs = [family(m, fi, x, K) for x in e.args]
+        if any(x is None for x in subs):
+            return None
+        ln = subs[0][1]
+        for x in subs[1:]:            # zip stops with the shortest: decidable when the lengths differ by a constant
+            d = Aff.try_of(_bin(x[1], ast.Sub(), ln))
+            if d is None or d.terms:
+                return None
+            if d.const < 0:
+                ln = x[1]
+        return ast.Tuple(elts=[x[0] for x in subs], ctx=ast.Load()), ln
+    if isinstance(f, (ast.Name, ast.Attribute)) and m.resolve(fi.module, f) == 'itertools.accumulate' and len(e.args) == 1 and all(k.arg == 'initial' for k in e.keywords):
+        sub = family(m, fi, e.args[0], K)
+        if sub is None:
+            return None
+        ps = ast.Call(func=_tag('__psum__', 'builtin'), args=[sub[0]], keywords=[])        # sum of the elements before k
+        if e.keywords and not is_none(e.keywords[0].value):
+            return _bin(e.keywords[0].value, ast.Add(), ps), _bin(sub[1], ast.Add(), ast.Constant(value=1))
+        return _bin(ps, ast.Add(), sub[0]), sub[1]
+    return None
+
+
+def _bind_targets(t, e, out):
+    if isinstance(t, ast.Name):
+        out[t.id] = e
+        return True
+    if isinstance(t, (ast.Tuple, ast.List)) and isinstance(e, ast.Tuple) and len(t.elts) == len(e.elts) and not any(isinstance(x, ast.Starred) for x in t.elts):
+        return all(_bind_targets(a, b, out) for a, b in zip(t.elts, e.elts))
+    return False
+
+
+def row_loop(V, m, fi, loop, what):
+    """The loop that walks over the rows: (name of the variable that counts them, [(condition, first value is 0?, number of rows)]).
+    `for i in range(..)`; a loop over a generator of the package that runs such a loop; a header built from range / enumerate / zip /
+    accumulate whose other targets then are functions of i (registered as per-iteration values)."""
+    def ranges(i, cs):
+        out = []
+        for cond, e in cs:
+            fam = family(m, fi, e, _tag(i, loop)) if isinstance(e, ast.Call) and isinstance(e.func, ast.Name) and e.func.id == 'range' else None
+            if fam is None:
+                raise Undecided(f'{V.fi.name}: {what}: rows are counted by `for {i} in {u(e)[:50]}`, which is not a range with step 1')
+            out.append((cond, term(fam[0], i, loop), fam[1]))
+        return out
+    if isinstance(loop.target, ast.Name):
+        return loop.target.id, ranges(loop.target.id, _single(V, loop.iter, loop, what))
+    gi = generator_items(m, fi, V, loop)
+    if gi is not None:
+        return gi[0], ranges(gi[0], _single(V, gi[1], loop, what))
+    # one-shot iterators must be consumed by this header only
+    for x in V.stmts:
+        if isinstance(x, ast.Assign) and len(x.targets) == 1 and isinstance(x.targets[0], ast.Name) and (isinstance(x.value, ast.GeneratorExp) or (isinstance(x.value, ast.Call) and (
+                u(x.value.func) in ('zip', 'map', 'enumerate', 'iter', 'filter', 'reversed') or (isinstance(x.value.func, (ast.Name, ast.Attribute)) and (m.resolve(fi.module, x.value.func) or '').startswith('itertools.'))))):
+            uses = sum(1 for n in ast.walk(V.fn) if isinstance(n, ast.Name) and n.id == x.targets[0].id and isinstance(n.ctx, ast.Load))
+            if uses > 1:
+                raise Undecided(f'{V.fi.name}: {what}: the iterator `{x.targets[0].id}` is read {uses} times; what each reader sees is not evaluated')
+    cs = _single(V, loop.iter, loop, what)
+    per, lens = {}, []
+    for cond, e in cs:
+        names = sorted({n.id for n in ast.walk(loop.target) if isinstance(n, ast.Name)})
+        found = None
+        for cand in names:            # the counting variable is the target whose k-th value is k
+            K = _tag(cand, loop)
+            fam = family(m, fi, e, K)
+            binds_ = {}
+            if fam is None or not _bind_targets(loop.target, fam[0], binds_):
+                raise Undecided(f'{V.fi.name}: {what}: loop header `for {u(loop.target)} in {u(loop.iter)[:60]}` (= {u(e)[:80]}) is not built from range / enumerate / zip / accumulate in a way the rule evaluates')
+            if binds_.get(cand) is K:
+                found = (cand, fam, binds_)
+                break
+        if found is None:
+            raise Undecided(f'{V.fi.name}: {what}: no target of `for {u(loop.target)} in {u(loop.iter)[:60]}` counts the iterations from 0')
+        cand, fam, binds_ = found
+        per.setdefault(cand, []).append((cond, binds_))
+        lens.append((cond, True, fam[1]))
+    if len(per) != 1:
+        raise Undecided(f'{V.fi.name}: {what}: the counting variable of the loop header depends on the path')
+    i = next(iter(per))
+    for cond, binds_ in per[i]:
+        for nm, ex in binds_.items():
+            if nm != i:
+                V.overrides.setdefault((nm, id(loop)), []).append((cond - V.path(loop), ex))
+    V._memo.clear()
+    return i, lens
+
+
 def _opaque_def(e):
     """A terminal whose value comes from a statement the resolver cannot take apart (e.g. unpacking the result of a call)."""
     return term(e) and isinstance(e.bind, (ast.Assign, ast.AnnAssign, ast.AugAssign))
@@ -1275,7 +1641,7 @@ def check_pairwise(ctx):
     """The rows may be filled at ONE call site or at several (e.g. one loop / one branch per layout): every site is checked under
     its own path condition, and the sites together must cover the square and the condensed layout."""
     rep, m = ctx.rep, ctx.model
-    fi = m.func(f'{MET}.jaccarddist_pairwise')
+    fi = anchor(m, f'{MET}.jaccarddist_pairwise')
     V = Vals(fi)
     sp, ip, fp = fi.params()[:3]
     FLAT = (('true', fp), ('false', fp))
@@ -1286,10 +1652,14 @@ def check_pairwise(ctx):
         st = V.stmt_of(c)
         loops = V.loops_around(st)
         loop = loops[-1] if loops else None
-        rep.require(len(loops) == 1 and isinstance(loop, ast.For) and isinstance(loop.target, ast.Name), 'jaccarddist_pairwise: row loop not found')
+        rep.require(len(loops) == 1 and isinstance(loop, ast.For), 'jaccarddist_pairwise: row loop not found')
         sites.append((c, st, loop))
     selector_stable(V, ip, True)
     selector_stable(V, fp, False)
+    rows_of = {}
+    for c, st, loop in sites:
+        if id(loop) not in rows_of:
+            rows_of[id(loop)] = row_loop(V, m, fi, loop, 'row loop')
 
     def is_np(e):
         return isinstance(e, ast.Call) and m.resolve_call(fi, e) == f'{MET}.num_pairs' and len(e.args) == 1 and not e.keywords
@@ -1302,7 +1672,7 @@ def check_pairwise(ctx):
     COLS = ('slice', I.plus(1), N)
     covered = set()
     for c, st, loop in sites:
-        i = loop.target.id
+        i, rcs = rows_of[id(loop)]
         site_mode = mode(V.path(st), *FLAT, 'jaccarddist_pairwise call site')
         covered |= {True, False} if site_mode is None else {site_mode}
 
@@ -1317,12 +1687,11 @@ def check_pairwise(ctx):
                 return Aff.try_of(_clone(e, lambda x: _tag('__n', 'count') if is_n(x) else _tag('__i', 'row') if is_i(x) else None))
             return aff
         # row range
-        rcs = _single(V, loop.iter, loop, 'row range')
-        okrng = True
-        for cond, e in rcs:
-            ok1 = isinstance(e, ast.Call) and isinstance(e.func, ast.Name) and e.func.id == 'range' and not e.keywords and len(e.args) in (1, 2) and (len(e.args) == 1 or is_const(e.args[0], 0))
-            okrng = okrng and ok1 and aff_under(cond, 'row range')(e.args[-1]) == N.plus(-1)
-        rep.add('B6', fi.site(loop), 'rows 0 .. n-2 are computed (the last row has no columns to its right)', okrng, expected='range(n - 1), n = number of selected signatures', found=V.show(rcs), stmt='row range')
+        okrng = bool(rcs)
+        for cond, from0, count in rcs:
+            okrng = okrng and from0 and aff_under(cond, 'row range')(count) == N.plus(-1)
+        rep.add('B6', fi.site(loop), 'rows 0 .. n-2 are computed (the last row has no columns to its right)', okrng, expected='range(n - 1), n = number of selected signatures',
+                found=[f'{u(count)} rows' + ('' if from0 else ' not counted from 0') + (f' if {sorted(cond)}' if cond else '') for cond, from0, count in rcs], stmt='row range')
         a0, a1, o = get_arg(c, 0, 'query'), get_arg(c, 1, 'refs'), get_arg(c, 2, 'out')
         rep.require(all(isinstance(x, ast.AST) for x in (a0, a1, o)), 'jaccarddist_pairwise: jaccarddist_array call without query / refs / out')
 
@@ -1542,6 +1911,37 @@ def _two_sites(flat_out='out[start:start + ncol]', mirror='out[cols, i] = out[i,
             f"\t\t\telse:\n\t\t\t\tjaccarddist_array(row_sig, col_sigs, out=out[i, cols])\n\t\t\t\tmeter.increment(ncol)\n\t\t\t\t{mirror}\n")
 
 
+_WRAP = "\tcoords1 = _cast_sigs_array(coords1)\n\tcoords2 = _cast_sigs_array(coords2)\n\treturn _cmetric.jaccarddist(coords1, coords2)\n"
+_PWHEAD = "\t\tfor i in range(n - 1):\n" + _ROWCOL
+_IMP = "from typing import Iterable, Sequence, Optional\n"
+
+
+def _sd_call(outarg='out'):
+    return f"\t_fill(refs, query, {outarg})\n\treturn out\n\n\ndef jaccarddist_matrix("
+
+
+def _sd_defs(store='out[i]', reg='SignatureArray', bounds='refs.bounds.astype(BOUNDS_DTYPE, copy=False)'):
+    return [(_P, _IMP, "from functools import singledispatch\n" + _IMP),
+            (_P, "def jaccarddist_array(", "@singledispatch\ndef _fill(refs, query, out):\n\tfor i, ref in enumerate(refs):\n\t\tref = _cast_sigs_array(ref)\n"
+             f"\t\t{store} = _cmetric.jaccarddist(query, ref)\n\n\n@_fill.register({reg})\ndef _fill_array(refs, query, out):\n\tvalues = _cast_sigs_array(refs.values)\n\tbounds = {bounds}\n"
+             "\t_cmetric._jaccarddist_parallel(query, values, bounds, out)\n\n\ndef jaccarddist_array(")]
+
+
+def _pw_gen_loop(narg='n'):
+    return f"\t\tfor i, cols, row_sig, col_sigs in _rows(sigs, indices, {narg}):\n\t\t\tncol = n - i - 1\n"
+
+
+def _pw_gen(else_cols='sigs[indices[cols]]', rng='range(n - 1)'):
+    return [(_P, _NUMPAIRS, f"def _rows(sigs, indices, n):\n\tfor i in {rng}:\n\t\tcols = slice(i + 1, n)\n\t\tif indices is None:\n\t\t\tyield i, cols, sigs[i], sigs[cols]\n\t\telse:\n"
+             f"\t\t\tyield i, cols, sigs[indices[i]], {else_cols}\n\n\n" + _NUMPAIRS)]
+
+
+def _accum(ncols='range(n - 1, 0, -1)', acc='accumulate(ncols, initial=0)', tgt='i, (ncol, offset)'):
+    return (f"\tncols = {ncols}\n\toffsets = itertools.{acc}\n\tif not flat:\n\t\tnp.fill_diagonal(out, 0)\n\n\twith get_progress(progress, npairs) as meter:\n\t\tfor {tgt} in enumerate(zip(ncols, offsets)):\n"
+            "\t\t\trow_sig = sigs[i] if indices is None else sigs[indices[i]]\n\t\t\tcols = slice(i + 1, n)\n\t\t\tcol_sigs = sigs[cols] if indices is None else sigs[indices[cols]]\n"
+            "\t\t\trow_out = out[offset:offset + ncol] if flat else out[i, cols]\n\t\t\tjaccarddist_array(row_sig, col_sigs, out=row_out)\n\t\t\tmeter.increment(ncol)\n\t\t\tif not flat:\n\t\t\t\tout[cols, i] = out[i, cols]\n")
+
+
 VARIANTS = [
     V('output columns from a fresh slice', 'B', _P, "jaccarddist_array(query, ref_chunk, out=out[i, ref_slice])", "jaccarddist_array(query, ref_chunk, out=out[i, slice(0, len(ref_chunk))])", 'B5'),
     V('prange writes out[i + 1]', 'B', _X, "\t\tout[i] = c_jaccarddist(query, ref_coords[begin:end])", "\t\tout[i + 1] = c_jaccarddist(query, ref_coords[begin:end])", 'B2'),
@@ -1635,6 +2035,41 @@ VARIANTS = [
       "\t\t\tcols = slice(i + 1, n)\n\t\t\tncol = n - i - 1\n\t\t\tif indices is None:\n\t\t\t\trow_sig, col_sigs = sigs[i], sigs[cols]\n\t\t\telse:\n\t\t\t\trow_sig, col_sigs = sigs[indices[i]], sigs[cols]\n", 'B6'),
     V('pairwise: list wrap applied to signature arrays instead of plain lists', 'B', _P, "\tif not isinstance(sigs, AbstractSignatureArray):", "\tif isinstance(sigs, AbstractSignatureArray):", 'B6'),
     V('matrix: chunk list arms exchanged (chunk_slices with no chunk size)', 'B', _P, "\tif chunksize is None:\n\t\tref_slices = [slice(0, nrefs)]", "\tif chunksize is not None:\n\t\tref_slices = [slice(0, nrefs)]", 'B5'),
+    # ---- third round: moved / aliased gate, delegation to the public wrapper, gated loop header, singledispatch, generators with
+    # several yield sites, loop headers built from range / zip / accumulate
+    V('E: gate called through a module-level alias', 'E', _P, "\tquery = _cast_sigs_array(query)\n\n\tif out is None:\n\t\tout = np.empty(len(refs)", "\tquery = _gate(query)\n\n\tif out is None:\n\t\tout = np.empty(len(refs)",
+      also=[(_P, "def jaccard(coords1", "_gate = _cast_sigs_array\n\n\ndef jaccard(coords1")]),
+    V('twin: aliased gate applied to a reversed query', 'B', _P, "\tquery = _cast_sigs_array(query)\n\n\tif out is None:\n\t\tout = np.empty(len(refs)", "\tquery = _gate(query[::-1])\n\n\tif out is None:\n\t\tout = np.empty(len(refs)", 'B3',
+      also=[(_P, "def jaccard(coords1", "_gate = _cast_sigs_array\n\n\ndef jaccard(coords1")]),
+    V('E: slow path delegates each cell to the public two-signature function', 'E', _P, _SLOW, "\t\t\tout[i] = jaccarddist(query, ref)"),
+    V('twin: delegated cell computed against the first reference', 'B', _P, _SLOW, "\t\t\tout[i] = jaccarddist(query, refs[0])", 'B4'),
+    V('twin: delegation to a wrapper that compares its first operand with itself', 'B', _P, _SLOW, "\t\t\tout[i] = jaccarddist(query, ref)", 'B1',
+      also=[(_P, "\treturn _cmetric.jaccarddist(coords1, coords2)", "\treturn _cmetric.jaccarddist(coords1, coords1)")]),
+    V('twin: delegation to a wrapper that rounds the kernel value', 'B', _P, _SLOW, "\t\t\tout[i] = jaccarddist(query, ref)", 'B1',
+      also=[(_P, "\treturn _cmetric.jaccarddist(coords1, coords2)", "\treturn round(_cmetric.jaccarddist(coords1, coords2), 6)")]),
+    V('E: wrapper gates both operands through a * spread helper', 'E', _P, _SLOW, "\t\t\tout[i] = jaccarddist(query, ref)",
+      also=[(_P, _WRAP, "\treturn _cmetric.jaccarddist(*_gate_all(coords1, coords2))\n"), (_P, "def jaccard(coords1", "def _gate_all(*arrs):\n\treturn [_cast_sigs_array(a) for a in arrs]\n\n\ndef jaccard(coords1")]),
+    V('twin: spread helper gates only the first of its arguments', 'B', _P, _SLOW, "\t\t\tout[i] = jaccarddist(query, ref)", 'B1',
+      also=[(_P, _WRAP, "\treturn _cmetric.jaccarddist(*_gate_all(coords1, coords2))\n"), (_P, "def jaccard(coords1", "def _gate_all(*arrs):\n\treturn [_cast_sigs_array(arrs[0]) for a in arrs]\n\n\ndef jaccard(coords1")]),
+    V('twin: spread of the operands in exchanged-and-duplicated order', 'B', _P, _SLOW, "\t\t\tout[i] = jaccarddist(query, ref)", 'B1',
+      also=[(_P, _WRAP, "\treturn _cmetric.jaccarddist(*_gate_all(coords2, coords2))\n"), (_P, "def jaccard(coords1", "def _gate_all(*arrs):\n\treturn [_cast_sigs_array(a) for a in arrs]\n\n\ndef jaccard(coords1")]),
+    V('E: loop header gates the references (enumerate(map(gate, refs)))', 'E', _P, "\t\tfor i, ref in enumerate(refs):\n" + _SLOW, "\t\tfor i, ref in enumerate(map(_cast_sigs_array, refs)):\n\t\t\tout[i] = _cmetric.jaccarddist(query, ref)"),
+    V('twin: gated header walks the references backwards', 'B', _P, "\t\tfor i, ref in enumerate(refs):\n" + _SLOW, "\t\tfor i, ref in enumerate(map(_cast_sigs_array, refs[::-1])):\n\t\t\tout[i] = _cmetric.jaccarddist(query, ref)", 'B4'),
+    V('twin: header maps something that is not the gate', 'B', _P, "\t\tfor i, ref in enumerate(refs):\n" + _SLOW, "\t\tfor i, ref in enumerate(map(np.asarray, refs)):\n\t\t\tout[i] = _cmetric.jaccarddist(query, ref)", 'B4'),
+    V('E: container dispatch by functools.singledispatch', 'E', _P, _DISPATCH, _sd_call(), also=_sd_defs()),
+    V('twin: singledispatch default loop fills the previous cell', 'B', _P, _DISPATCH, _sd_call(), 'B4', also=_sd_defs(store='out[i - 1]')),
+    V('twin: singledispatch fast path registered for every signature array', 'B', _P, _DISPATCH, _sd_call(), 'B3', also=_sd_defs(reg='AbstractSignatureArray')),
+    V('twin: singledispatch fast path takes bounds of a slice of the collection', 'B', _P, _DISPATCH, _sd_call(), 'B3', also=_sd_defs(bounds='refs.bounds[1:].astype(BOUNDS_DTYPE, copy=False)')),
+    V('twin: singledispatch call hands over a copy of the buffer', 'B', _P, _DISPATCH, _sd_call('out.copy()'), 'B1', also=_sd_defs()),
+    V('E: pairwise rows from a generator yielding in both arms of an if/else', 'E', _P, _PWHEAD, _pw_gen_loop(), also=_pw_gen()),
+    V('twin: row generator ignores the selection for the columns', 'B', _P, _PWHEAD, _pw_gen_loop(), 'B6', also=_pw_gen(else_cols='sigs[cols]')),
+    V('twin: row generator starts at row 1', 'B', _P, _PWHEAD, _pw_gen_loop(), 'B6', also=_pw_gen(rng='range(1, n - 1)')),
+    V('twin: row generator called with the whole collection size', 'B', _P, _PWHEAD, _pw_gen_loop('len(sigs)'), 'B6', also=_pw_gen()),
+    V('E: row lengths and condensed offsets from range / accumulate / zip', 'E', _P, _PWTAIL, _accum(), also=[(_P, _IMP, 'import itertools\n' + _IMP)]),
+    V('twin: accumulate without initial (every row one block late)', 'B', _P, _PWTAIL, _accum(acc='accumulate(ncols)'), 'B6', also=[(_P, _IMP, 'import itertools\n' + _IMP)]),
+    V('twin: row lengths start at n', 'B', _P, _PWTAIL, _accum(ncols='range(n, 0, -1)'), 'B6', also=[(_P, _IMP, 'import itertools\n' + _IMP)]),
+    V('twin: offsets accumulate from 1', 'B', _P, _PWTAIL, _accum(acc='accumulate(ncols, initial=1)'), 'B6', also=[(_P, _IMP, 'import itertools\n' + _IMP)]),
+    V('twin: zip header unpacked in exchanged order', 'B', _P, _PWTAIL, _accum(tgt='i, (offset, ncol)'), 'B6', also=[(_P, _IMP, 'import itertools\n' + _IMP)]),
     # ---- caller-supplied buffer: the polarity of the shape / dtype checks is decided per path
     V('array: shape test inverted', 'B', _P, "\telif out.shape != (len(refs),):", "\telif out.shape == (len(refs),):", 'B1'),
     V('array: shape test wrapped in not', 'B', _P, "\telif out.shape != (len(refs),):", "\telif not out.shape != (len(refs),):", 'B1'),
